@@ -261,6 +261,7 @@ type c04Run struct {
 const workPerByte, workSlack = 64, 256
 
 func c04Work(c *mc.Ctx) {
+	sched.ProfOn = true
 	targets := c04Targets(c.Tier)
 	unit := 0
 	for _, tg := range targets {
@@ -552,6 +553,7 @@ func (r *c04Run) one(kind string, in []byte) {
 			var rerr error
 			c.Ops(1)
 			w0 := sched.Work
+			sched.ProfReset()
 			if c.Guard(pre, func() { res[pi], rn, rerr = r.decode(path, buf) }) {
 				panicked = true
 				// the instance may be poisoned (e.g. a lock held): start afresh
@@ -568,6 +570,8 @@ func (r *c04Run) one(kind string, in []byte) {
 					}
 				}
 				if w := sched.Work - w0; w > uint64(workPerByte*(n+1)+workSlack) {
+					// where the work went: the library function with the most entries and loop iterations
+					top, topN := sched.ProfTop()
 					// is it this input, or what the instance has been through before? Repeat on a fresh
 					// instance that has only built its codecs and decoded one valid encoding.
 					saveP, saveC := r.p, r.codec
@@ -577,14 +581,16 @@ func (r *c04Run) one(kind string, in []byte) {
 						c.Guard(pre, func() { r.decode(path, bytes.Join(r.tg.corpus[0], nil)) })
 					}
 					w1 := sched.Work
+					sched.ProfReset()
 					c.Guard(pre, func() { r.decode(path, buf) })
 					w2 := sched.Work - w1
 					if w2 > uint64(workPerByte*(n+1)+workSlack) {
-						c.Violation(pre+"work-not-linear-in-input", fmt.Sprintf("input %s (%d bytes): %d library function calls and loop iterations on a fresh instance, bound %d", hx(in), n, w2, workPerByte*(n+1)+workSlack))
+						top, topN = sched.ProfTop()
+						c.Violation(pre+"work-not-linear-in-input@"+top, fmt.Sprintf("input %s (%d bytes): %d library function calls and loop iterations on a fresh instance (%d of them in %s), bound %d", hx(in), n, w2, topN, top, workPerByte*(n+1)+workSlack))
 						r.p, r.codec = saveP, saveC
 					} else {
 						// the fresh instance replaces the old one: the cost came from the old one's history
-						c.Violation(pre+"work-depends-on-instance-history", fmt.Sprintf("input %s (%d bytes): %d units of work on the long-lived instance (after %d earlier inputs), %d on a fresh one", hx(in), n, w, r.inputs, w2))
+						c.Violation(pre+"work-depends-on-instance-history@"+top, fmt.Sprintf("input %s (%d bytes): %d units of work on the long-lived instance (after %d earlier inputs; %d of them in %s), %d on a fresh one", hx(in), n, w, r.inputs, topN, top, w2))
 					}
 				} else if q := int64(w) * 100 / int64(n+1); n >= 64 && q > r.maxWork {
 					r.maxWork = q
